@@ -8,6 +8,8 @@ import (
 	"strconv"
 	"time"
 
+	_ "verif/checks/c01"
+	_ "verif/checks/c13"
 	_ "verif/checks/queue"
 	"verif/engine"
 )
